@@ -220,29 +220,34 @@ def flagsClash (E : Env) : List Nat → List Nat → List Tm → List Tm → Boo
     (linear E a && linear E b && f1 != f2) || flagsClash E fs1 fs2 as bs
   | _, _, _, _ => false
 
-/-- `unify(s, t, subst)`.  Case order as in the Python `match`: equal variables, variable on the left,
-    variable on the right, then the constructor cases. -/
-def unify (E : Env) : Nat → Tm → Tm → Subst → Res
-  | 0, _, _, _ => .oof
-  | f + 1, s, t, σ =>
-    match s, t with
-    | .var a, .var b =>
-      if a = b then .ok σ else unifyVarWith (unify E f) (occurs f) a (.var b) σ
-    | .var a, t => unifyVarWith (unify E f) (occurs f) a t σ
-    | s, .var b => unifyVarWith (unify E f) (occurs f) b s σ
-    | .atom a, .atom b => if atomEq a b then .ok σ else .fail
-    | .node h₁ as, .node h₂ bs =>
-      match h₁, h₂ with
-      | .func fl₁ p₁, .func fl₂ p₂ =>
-        if p₁ = p₂ then
-          if fl₁.length ≠ fl₂.length then .fail
-          else if flagsClash E fl₁ fl₂ as bs then .fail
-          else unifyArgsWith (unify E f) as bs σ
-        else .fail
-      | .tuple, .tuple => unifyArgsWith (unify E f) as bs σ
-      | .opaque d₁, .opaque d₂ => if d₁ = d₂ then unifyArgsWith (unify E f) as bs σ else .fail
-      | .struct d₁, .struct d₂ => if d₁ = d₂ then unifyArgsWith (unify E f) as bs σ else .fail
-      | _, _ => .fail
+/-- the body of `unify(s, t, subst)` with the recursive call `u` and the occurs check `occ` abstracted.
+    Case order as in the Python `match`: equal variables, variable on the left, variable on the right,
+    then the constructor cases. -/
+def unifyStep (E : Env) (u : Tm → Tm → Subst → Res) (occ : Subst → V → Tm → Option Bool)
+    (s t : Tm) (σ : Subst) : Res :=
+  match s, t with
+  | .var a, .var b =>
+    if a = b then .ok σ else unifyVarWith u occ a (.var b) σ
+  | .var a, t => unifyVarWith u occ a t σ
+  | s, .var b => unifyVarWith u occ b s σ
+  | .atom a, .atom b => if atomEq a b then .ok σ else .fail
+  | .node h₁ as, .node h₂ bs =>
+    match h₁, h₂ with
+    | .func fl₁ p₁, .func fl₂ p₂ =>
+      if p₁ = p₂ then
+        if fl₁.length ≠ fl₂.length then .fail
+        else if flagsClash E fl₁ fl₂ as bs then .fail
+        else unifyArgsWith u as bs σ
+      else .fail
+    | .tuple, .tuple => unifyArgsWith u as bs σ
+    | .opaque d₁, .opaque d₂ => if d₁ = d₂ then unifyArgsWith u as bs σ else .fail
+    | .struct d₁, .struct d₂ => if d₁ = d₂ then unifyArgsWith u as bs σ else .fail
     | _, _ => .fail
+  | _, _ => .fail
+
+/-- `unify(s, t, subst)`: recursion depth bounded by the fuel (first argument) -/
+def unify (E : Env) : Nat → Tm → Tm → Subst → Res
+  | 0 => fun _ _ _ => .oof
+  | f + 1 => unifyStep E (unify E f) (occurs f)
 
 end GuppyVerif.Unify
